@@ -103,6 +103,12 @@ class _DivTransformer(ast.NodeTransformer):
         kwargs = []
         return ast.Call(name, args, kwargs)
 
+    def visit_Compare(self, node):
+        # Make comparisons evaluate to 0.0 or 1.0 so that arithmetic on the result is the same for scalars and arrays
+        # (numpy booleans otherwise add as logical-or, cannot be negated, and are promoted to half precision by exp/cos etc.)
+        self.generic_visit(node)
+        return ast.BinOp(left=node, op=ast.Mult(), right=ast.Constant(1.0))
+
 
 # Only these syntax elements are permitted in parameter functions
 _allowed_nodes = (ast.Expression, ast.BinOp, ast.UnaryOp, ast.Compare, ast.BoolOp, ast.IfExp, ast.Call, ast.Name, ast.Constant, ast.expr_context, ast.operator, ast.unaryop, ast.cmpop, ast.boolop)
